@@ -39,12 +39,31 @@ class Lock:
 # ------------------------------------------------------------------------------------------------
 # (T) facts
 
+FACTS_DYNAMIC = []
+
+
 def extract_facts():
+    """the translator; a fact whose source pattern no longer matches is, where that is possible, *observed* on instrumented
+    executions of the current code instead (`harness facts`) -- the names of such facts are kept in FACTS_DYNAMIC"""
+    script = os.path.join(VERIF, "tools", "extract_facts.py")
     with Lock("lake"):
-        rc, out = sh([sys.executable, os.path.join(VERIF, "tools", "extract_facts.py")])
+        rc, out = sh([sys.executable, script])
     if rc != 0:
         return None, out
-    return json.loads(out)["facts"], None
+    j = json.loads(out)
+    del FACTS_DYNAMIC[:]
+    if j.get("wants_dynamic"):
+        hb, errs, _ = cargo_build("release")
+        if hb is not None:
+            dyn = os.path.join(BUILD, "facts_observed.json")
+            rc2, out2 = sh([hb, "facts", "--out", dyn], timeout=600)
+            if rc2 == 0 and os.path.exists(dyn):
+                with Lock("lake"):
+                    rc3, out3 = sh([sys.executable, script, "--dynamic", dyn])
+                if rc3 == 0:
+                    j = json.loads(out3)
+                    FACTS_DYNAMIC.extend(j.get("dynamic", []))
+    return j["facts"], None
 
 
 # ------------------------------------------------------------------------------------------------
